@@ -30,7 +30,7 @@ C = ps.cfg
 MAIN = [C(f, ne, True, cut) for f in ms.FAMS for ne in (False, True) for cut in ms.CUTS] + \
        [C(f, True, True, cut, 1) for f in ms.FAMS for cut in ("none", "mpn0.3")]
 N4 = [C(f, True, True, cut) for f in ms.FAMS for cut in ("none", "md1.5", "mpn0.6")]
-HIST = [C("D", True, True, "mpn0.3", 1), C("S", True, True, "md1.5", 1), C("SN", True, True, "none", 1)]
+HIST = [C("D", True, True, "mpn0.3", 1), C("S", True, True, "md1.5", 1), C("SN", True, True, "none", 1), C("D", False, True, "md1.5", None)]
 
 
 def cfgs_for(sl):
@@ -45,6 +45,10 @@ def cases(tier):
     for c in ps.cases(tier, with_hist=True):
         c["tier"] = tier
         yield c
+    # after an early stop: jump with continue_with_distance(), then extend - the result must still be aligned
+    for hist in ([["M", 9], ["C", None], ["X", 9]], [["M", 9], ["C", 1.0], ["X", 9]]):
+        for name, pos, g in ms.special_graphs():
+            yield {"kind": "hist", "gs": ms.explicit(g), "pos": pos, "slice": "hist-special", "name": name, "T": 3, "hist": hist, "tier": tier}
 
 
 def judge(m, r, graph, trace, c, unique, ctx):
